@@ -77,6 +77,7 @@ func moduleReach(P *Prog, start *ssa.Function, depth int) map[*ssa.Function]bool
 }
 
 func runC19(r *Run) {
+	defer c19DerivedIndexes(r)
 	P := r.P
 	r.Rule("R1", "TABLE.field-symmetry: per module, {GenesisState fields assigned in code reachable from ExportGenesis (composite literal or NewGenesisState parameters)} = {GenesisState fields read in code reachable from InitGenesis} = all fields of the struct")
 	r.Rule("R2", "REACH.store-coverage: per module, every []byte key-prefix variable of x/<m>/types that a consensus-scope function uses together with a store Set/Delete is used by a function reachable from ExportGenesis and by a store-writing function reachable from InitGenesis, unless tabled as derived/transient")
@@ -799,4 +800,35 @@ func isProjectionOf(v ssa.Value, root ssa.Value, depth int) bool {
 		}
 	}
 	return false
+}
+
+// c19DerivedIndexes (C19 R7): stores that are not exported but rebuilt by InitGenesis are maintained at run time
+// by the same rule the import applies.
+func c19DerivedIndexes(r *Run) {
+	P := r.P
+	r.Rule("R7", "FLOW/OWN.derived-indexes-match-the-import: stores that are not part of the exported document but rebuilt from it must hold, at run time, exactly what the import would rebuild. (a) erc20: InitGenesis rebuilds the denom map from pair.Denom and the address map from the pair's contract address — every run-time SetDenomMap / SetERC20Map is keyed by that same field of a TokenPair (an extra alias entry is dropped by a restart from genesis); (b) ucdao: the holders index is written only by setHoldersIndex, the function the import uses (C12 R1/R4, imported)")
+	n := 0
+	for _, fn := range P.Funcs {
+		if !isHaqqPath(fnPkgPath(fn)) || isTestSupport(P, fn) || fn.Synthetic != "" || isGeneratedFile(P.FileOf(fnPos(outermost(fn)))) {
+			continue
+		}
+		eachCall(fn, func(ci CallInfo) {
+			if !(ci.Name == "SetDenomMap" || ci.Name == "SetERC20Map") || !pathHasSuffix(ci.PkgPath, "x/erc20/keeper") {
+				return
+			}
+			n++
+			key := argN(ci.Instr, 1)
+			sl := backSlice(key)
+			ok := false
+			if ci.Name == "SetDenomMap" {
+				ok = sl.HasField("TokenPair", "Denom")
+			} else {
+				ok = sl.HasField("TokenPair", "Erc20Address") || sl.HasCall(func(g CallInfo) bool { return g.Name == "GetERC20Contract" && g.Recv == "TokenPair" })
+			}
+			r.Check(ok, "R7", fmt.Sprintf("%s#%s-key", fnID(fn), ci.Name), P.Pos(instrPos(ci.Instr)), "keyed by the pair's own field, as the import does",
+				"a run-time entry of the erc20 lookup maps is keyed by something other than the pair's denomination / contract address: InitGenesis rebuilds these maps from the pairs alone, so the entry disappears on an export/import cycle (a lookup that succeeded before the restart fails after it)")
+		})
+	}
+	r.Floor("R7", "SetDenomMap/SetERC20Map call sites", n, 6)
+	r.Import("R7/C12.", []string{"R1", "R4"}, runC12)
 }
